@@ -9,9 +9,12 @@ import json, os, subprocess, sys, shutil, xml.etree.ElementTree as ET, tempfile
 pid, k = sys.argv[1].upper(), sys.argv[2]
 tier = 'quick'
 checks = [pid]
+store = k
 for a in sys.argv[3:]:
     if a.startswith('--also='):
         checks += a[7:].split(',')
+    if a.startswith('--as='):
+        store = a[5:]
 wt, out = '/tmp/wt-%s' % pid.lower(), '/tmp/out-%s' % pid.lower()
 patch, demo, meta = '%s/patch_%s.diff' % (out, k), '%s/demo_%s.py' % (out, k), '%s/meta_%s.json' % (out, k)
 def sh(cmd, cwd=None, env=None):
@@ -52,7 +55,7 @@ if confirmed:
                 print(oc[-1500:])
     finally:
         sh('git -C /repo checkout -- .')
-    d = '/verif/seeded/%s-%s' % (pid, k)
+    d = '/verif/seeded/%s-%s' % (pid, store)
     os.makedirs(d, exist_ok=True)
     shutil.copy(patch, d + '/patch.diff'); shutil.copy(demo, d + '/demo.py')
     m = json.load(open(meta)) if os.path.exists(meta) else {}
